@@ -6,6 +6,7 @@ import (
 	"bytes"
 	"fmt"
 	"regexp"
+	"runtime"
 	"strconv"
 	"unicode/utf8"
 
@@ -72,6 +73,7 @@ func Parse(buf []byte) (x Expr, err error) {
 
 // MustParse parses a []byte into an Expr and panics on error.
 func MustParse(buf []byte) (x Expr) {
+	defer repanicWithError()
 	p := &parser{buf: buf}
 	x = p.readExpr()
 	if p.pos < len(buf) {
@@ -756,6 +758,20 @@ func (p *parser) nextNonSpace() (b byte) {
 		p.pos++
 	}
 	return
+}
+
+// repanicWithError makes sure a panic raised while parsing always carries an
+// error that describes the problem and never a bare string or a runtime
+// fault such as an index out of range.
+func repanicWithError() {
+	if r := recover(); r != nil {
+		if err, ok := r.(error); ok {
+			if _, rt := r.(runtime.Error); !rt {
+				panic(err)
+			}
+		}
+		panic(ojg.NewError(r))
+	}
 }
 
 func (p *parser) raise(format string, args ...any) {
